@@ -248,6 +248,9 @@ class StyleProperties:
 
     @classmethod
     def extract(cls, context: StyleParsingContext, xml_attrib: str):
+      if xml_attrib not in ("true", "false"):
+        raise ValueError("itts:fillLineGap must be true or false")
+
       return xml_attrib == "true"
 
     @classmethod
@@ -846,6 +849,9 @@ class StyleProperties:
       for c in xml_attrib.split(" "):
 
         if c == "none":
+
+          if xml_attrib != "none":
+            raise ValueError("tts:textEmphasis cannot combine none with other components")
 
           return styles.SpecialValues.none
 
